@@ -694,3 +694,49 @@ Print Assumptions c19_offline_shared_directory_refuted.
 Theorem c19_offline_validator_decides : forall req l e, validate_offline req l e = [] <-> OfflineSound req l e.
 Proof. exact validate_offline_iff. Qed.
 Print Assumptions c19_offline_validator_decides.
+
+(* ======================================================================================
+   The file name of a cached revision (cacheFileFromEtag)
+   ====================================================================================== *)
+
+(* For the way the source of this run builds the name — the WHOLE encoded etag, goextract:
+   [etag_name_use = ["whole"]] — the name is an injective function of (directory, etag), for index
+   and non-index files alike and etags of any length: two revisions of one file never share a
+   cache entry, and the stat of "the HEAD etag's file" can only find that revision.  (Which
+   directory a URL gets, and that the result stays inside it, is C18's subject.) *)
+Theorem c19_etag_file_name_injective : forall part,
+  etag_part etag_name_use = Some part ->
+  etag_name_exts = [".etag"; ".tar.gz"] /\
+  (forall dir dir' is_index e e',
+     etag_file_name part etag_name_exts dir is_index e = etag_file_name part etag_name_exts dir' is_index e' ->
+     dir = dir' /\ e = e') /\
+  (forall is_index e e', etag_file_base part etag_name_exts is_index e = etag_file_base part etag_name_exts is_index e' -> e = e').
+Proof.
+  intros part H. vm_compute in H. inversion H; subst part. split; [reflexivity|].
+  split; [intros dir dir' k e e'; apply etag_file_name_inj|intros k e e'; apply etag_file_base_inj].
+Qed.
+Print Assumptions c19_etag_file_name_injective.
+
+(* HYPOTHETICAL SHAPE (not the code of this run; seeded change C19-8): only the first n characters of
+   the encoded etag go into the name.  Then two different etags — object-store style ETags whose
+   distinguishing generation comes after the cut — get ONE name: after a repository update the stat
+   finds the old revision's file and the stale index is served without a download. *)
+Theorem c19_etag_name_cut_refuted : forall n, exists e e',
+  e <> e' /\ etag_file_base (etag_cut n) etag_name_exts true e = etag_file_base (etag_cut n) etag_name_exts true e'.
+Proof. intros n. apply etag_cut_collides. Qed.
+Print Assumptions c19_etag_name_cut_refuted.
+
+(* Candidate: "every etag gets a usable file name" (at most NAME_MAX = 255 characters on the usual
+   filesystems).  REFUTED for the code of this run (finding C19-F8): the name grows with the etag —
+   8 characters for every 5 bytes of ETag, plus the extension — and nothing bounds it: for every bound
+   there is an etag whose name is longer.  On the real code an index whose ETag has more than 154 bytes
+   cannot be advertised (symlink: ENAMETOOLONG) and the build with the cache fails. *)
+Theorem c19_etag_name_length_refuted : forall part bound,
+  etag_part etag_name_use = Some part ->
+  exists e, bound < String.length (etag_file_base part etag_name_exts true e).
+Proof. intros part bound H. vm_compute in H. inversion H; subst part. apply etag_name_unbounded. Qed.
+Print Assumptions c19_etag_name_length_refuted.
+
+Theorem c19_names_validator_decides : forall l, validate_names l = [] <-> NamesInjective l.
+Proof. exact validate_names_iff. Qed.
+Print Assumptions c19_names_validator_decides.
